@@ -29,7 +29,7 @@ out = ["# Seeded property-breaking changes and the checks that catch them", "",
        "Every change below compiles, passes the 66 pinned tests, comes with a demonstration that fails with it and passes without it",
        "(all confirmed independently by selftest/ingest.sh in a scratch worktree of /repo HEAD), and was then run against the quick checks",
        "(column 'run': ALL = all 20 quick checks, otherwise the listed ones: the target property's check plus the checks that fired in an earlier full run).", "",
-       "Waves: A, B realistic changes; C 'hard'; D-H 'as hard to detect as possible, knowing the defences built so far' (each wave was told the workload dimensions added after the previous ones); I, J: agents given nothing but the property text and a worktree, two changes of different mechanism each. The table shows the state after the workload dimensions that the misses prompted were added; 'first pass' in the summary is what the checks caught when a wave was first ingested.", "",
+       "Waves: A, B realistic changes; C 'hard'; D-H 'as hard to detect as possible, knowing the defences built so far' (each wave was told the workload dimensions added after the previous ones); I, J and K, L: agents given nothing but the property text and a worktree, two changes each (I/J: two different mechanisms; K: the violation depends on a sequence or on the surroundings, L: it is confined to a narrow region of the input space that is no format boundary). The table shows the state after the workload dimensions that the misses prompted were added; 'first pass' in the summary is what the checks caught when a wave was first ingested.", "",
        "| change | breaks | run | caught by (quick) | target caught | what it needs to manifest |", "|---|---|---|---|---|---|"]
 missed = []
 per_wave = collections.OrderedDict()
@@ -57,6 +57,8 @@ FIRST_PASS_MISSES = {
     "H": ["C01-H", "C02-H", "C03-H", "C04-H", "C05-H", "C06-H", "C09-H", "C10-H", "C12-H", "C13-H", "C16-H", "C17-H"],
     "I": ["C14-I", "C17-I"],
     "J": ["C03-J", "C05-J", "C07-J", "C10-J", "C12-J", "C14-J", "C16-J", "C18-J", "C19-J"],
+    "K": ["C05-K", "C07-K", "C08-K", "C10-K", "C17-K"],
+    "L": ["C17-L"],
 }
 summary = ["| wave | changes | caught by the quick check of their own property | not caught by it |", "|---|---|---|---|"]
 for wave, (n, okn, miss) in per_wave.items():
